@@ -54,10 +54,12 @@ func (x *Exec) registerIntrinsics() {
 	}
 	// ------------------------------------------------------------ math/bits
 	reg([]string{"math/bits.Mul64", "math/bits.Mul"}, func(p *Path, fn *ssa.Function, a []Value) (Value, *Panic) {
-		pr := p.C.Mul(T(a[0]), T(a[1]))
-		if !T(a[0]).IsConst() && !T(a[1]).IsConst() {
+		x0, y0 := T(a[0]), T(a[1])
+		if !x0.IsConst() && !y0.IsConst() {
 			p.nonlinear = true
+			x0, y0 = p.resolveSem(x0), p.resolveSem(y0)
 		}
+		pr := p.C.Mul(x0, y0)
 		return TupleV{p.C.DivC(pr, two64), p.C.ModC(pr, two64)}, nil
 	})
 	reg([]string{"math/bits.Add64", "math/bits.Add"}, func(p *Path, fn *ssa.Function, a []Value) (Value, *Panic) {
@@ -417,9 +419,15 @@ func (x *Exec) registerHarnessIntrinsics() {
 			}
 			return term.Pow10(int(k.C.Int64()))
 		}
-		r("sMulPow10", func(p *Path, fn *ssa.Function, a []Value) (Value, *Panic) { return p.C.MulC(T(a[0]), pow(p, a[1])), nil })
-		r("sDivPow10", func(p *Path, fn *ssa.Function, a []Value) (Value, *Panic) { return p.C.DivC(T(a[0]), pow(p, a[1])), nil })
-		r("sModPow10", func(p *Path, fn *ssa.Function, a []Value) (Value, *Panic) { return p.C.ModC(T(a[0]), pow(p, a[1])), nil })
+		r("sMulPow10", func(p *Path, fn *ssa.Function, a []Value) (Value, *Panic) {
+			return p.C.MulC(T(a[0]), pow(p, a[1])), nil
+		})
+		r("sDivPow10", func(p *Path, fn *ssa.Function, a []Value) (Value, *Panic) {
+			return p.C.DivC(T(a[0]), pow(p, a[1])), nil
+		})
+		r("sModPow10", func(p *Path, fn *ssa.Function, a []Value) (Value, *Panic) {
+			return p.C.ModC(T(a[0]), pow(p, a[1])), nil
+		})
 		r("sPow10", func(p *Path, fn *ssa.Function, a []Value) (Value, *Panic) { return p.C.Const(pow(p, a[0])), nil })
 		r("sMulPow2", func(p *Path, fn *ssa.Function, a []Value) (Value, *Panic) {
 			return p.C.MulC(T(a[0]), term.Pow2(int(T(a[1]).Int64()))), nil
@@ -429,8 +437,13 @@ func (x *Exec) registerHarnessIntrinsics() {
 		r("sEq", func(p *Path, fn *ssa.Function, a []Value) (Value, *Panic) { return p.C.Eq(T(a[0]), T(a[1])), nil })
 		r("sLt", func(p *Path, fn *ssa.Function, a []Value) (Value, *Panic) { return p.C.Lt(T(a[0]), T(a[1])), nil })
 		r("sLe", func(p *Path, fn *ssa.Function, a []Value) (Value, *Panic) { return p.C.Le(T(a[0]), T(a[1])), nil })
+		r("sOdd", func(p *Path, fn *ssa.Function, a []Value) (Value, *Panic) {
+			return p.C.Eq(p.C.ModC(T(a[0]), big.NewInt(2)), p.C.Int(1)), nil
+		})
 		r("sIsZero", func(p *Path, fn *ssa.Function, a []Value) (Value, *Panic) { return p.C.Eq(T(a[0]), p.C.Int(0)), nil })
-		r("sIte", func(p *Path, fn *ssa.Function, a []Value) (Value, *Panic) { return p.C.Ite(T(a[0]), T(a[1]), T(a[2])), nil })
+		r("sIte", func(p *Path, fn *ssa.Function, a []Value) (Value, *Panic) {
+			return p.C.Ite(T(a[0]), T(a[1]), T(a[2])), nil
+		})
 		r("sFromWords", func(p *Path, fn *ssa.Function, a []Value) (Value, *Panic) {
 			s := a[0].(SliceV)
 			var parts []*term.Term
@@ -484,6 +497,11 @@ func (x *Exec) registerHarnessIntrinsics() {
 		})
 		r("vKnown", func(p *Path, fn *ssa.Function, a []Value) (Value, *Panic) {
 			p.known[strOf(a[0])] = T(a[1])
+			return nil, nil
+		})
+		r("vDump", func(p *Path, fn *ssa.Function, a []Value) (Value, *Panic) {
+			t := T(a[1])
+			fmt.Printf("DUMP %s = %s   in [%v, %v]\n", strOf(a[0]), t.String(), t.Lo, t.Hi)
 			return nil, nil
 		})
 		r("vNote", func(p *Path, fn *ssa.Function, a []Value) (Value, *Panic) {
